@@ -116,7 +116,11 @@ def execute(stim):
         async def init_async(self):
             lines.append({'ev': 'call', 'b': self.idx, 'r': 'async'})
             kind = self.conf['asyn']
-            await asyncio.sleep(self.conf['dur'] * TICK if kind != 'never' else 10 ** 6)
+            # (on a real clock the routines are entered one after another, so equal durations end in
+            # the order of their start; the virtual clock does not advance in between and would leave
+            # the order of equal deadlines to the timer heap: make the start order explicit)
+            await asyncio.sleep(self.conf['dur'] * TICK + order.index(self.idx) * 1e-8
+                                if kind != 'never' else 10 ** 6)
             if kind == 'raise':
                 raise RuntimeError('scripted init_async failure')
             if not self.is_initialized():
